@@ -1,10 +1,10 @@
 package simharness
 
 import (
-	multierror "github.com/hashicorp/go-multierror"
 	"context"
 	"errors"
 	"fmt"
+	multierror "github.com/hashicorp/go-multierror"
 	"sort"
 	"strings"
 	"time"
@@ -45,17 +45,17 @@ type nodeRec struct {
 
 // fanHarness is the state shared by the recording nodes of one run.
 type fanHarness struct {
-	sim      *simrt.Sim
-	lineage  map[*el.Event]string
-	recs     []nodeRec
-	rootBad  []string // malformed root events
-	errSeq   int
-	stallAt  map[string]bool // node labels whose body stalls (C03)
-	stalled  []int           // task ids parked in a stalled node body
-	inBody   int
-	reentry  func(n *recNode, where string) // C12: nodes that call back into the broker
-	onEntry  func(n *recNode, lin string)   // called when a node is entered (e.g. a node that cancels its Send's context)
-	closeLog []string
+	sim       *simrt.Sim
+	lineage   map[*el.Event]string
+	recs      []nodeRec
+	rootBad   []string // malformed root events
+	errSeq    int
+	stallAt   map[string]bool // node labels whose body stalls (C03)
+	stalled   []int           // task ids parked in a stalled node body
+	inBody    int
+	reentry   func(n *recNode, where string) // C12: nodes that call back into the broker
+	onEntry   func(n *recNode, lin string)   // called when a node is entered (e.g. a node that cancels its Send's context)
+	closeLog  []string
 	stoppedAt time.Time // Broker.StopTimeAt value, if any
 }
 
@@ -65,15 +65,15 @@ func newFanHarness(sim *simrt.Sim) *fanHarness {
 
 // recNode is a harness node with generated behaviour.
 type recNode struct {
-	Label    string // unique per object, e.g. "F1" or "F1'2" for a re-registration
-	Kind     el.NodeType
-	h        *fanHarness
-	beh      []int
-	Closes   int
-	Reopens  int
-	CloseErr error
+	Label     string // unique per object, e.g. "F1" or "F1'2" for a re-registration
+	Kind      el.NodeType
+	h         *fanHarness
+	beh       []int
+	Closes    int
+	Reopens   int
+	CloseErr  error
 	ReopenErr error
-	noCloser bool
+	noCloser  bool
 }
 
 func (n *recNode) Type() el.NodeType { return n.Kind }
@@ -242,7 +242,9 @@ func newBrokerModel() *BrokerModel {
 
 func pkey(typ, id string) string { return typ + "\x00" + id }
 
-func validPolicy(p el.RegistrationPolicy) bool { return p == el.AllowOverwrite || p == el.DenyOverwrite }
+func validPolicy(p el.RegistrationPolicy) bool {
+	return p == el.AllowOverwrite || p == el.DenyOverwrite
+}
 
 // RegisterNode: ok?
 func (m *BrokerModel) RegisterNode(id string, obj *recNode, policy el.RegistrationPolicy, policyGiven bool) bool {
